@@ -169,9 +169,9 @@ def run(R, name, B, only=None, flags=(False, True), auto_only=False):
 
 QUICK_ENVS = ["Knapsack", "Maze@3x3", "Snake", "Cleaner@3x3x1", "GraphColoring", "TSP", "SlidingTilePuzzle", "Connector", "Minesweeper", "CVRP", "JobShop"]
 # heavier equivalence queries (minutes each): thorough tier only
-# RobotWarehouse is not in the list: its step draws with jax.random.choice(replace=False) on an operand that is batched under vmap, for
-# which the permutation stub is not lane-consistent (first end-to-end run of this tier: models that do not replay) - not claimed
-THOROUGH_ENVS = ["Tetris", "RubiksCube", "LevelBasedForaging", "Sudoku", "FlatPack", "Sokoban", "MultiCVRP", "Game2048", "BinPack@csv"]
+# RobotWarehouse: claimed again since the random stubs case-split a key that is itself an ite (engine/jx2smt._key_cases, DESIGN 8.9); before
+# that the per-agent key chain of its step (scan + cond) got different draws in the batched and the per-lane encoding (models did not replay)
+THOROUGH_ENVS = ["Tetris", "RubiksCube", "LevelBasedForaging", "Sudoku", "FlatPack", "Sokoban", "MultiCVRP", "Game2048", "BinPack@csv", "RobotWarehouse"]
 JOBTIMEOUT = {"quick": 600, "thorough": 2400}
 
 
